@@ -386,6 +386,36 @@ class Inliner(object):
         h.body = self._block(h.body, fn, stack, inlined, depth)
     if depth >= self.max_depth:
       return [s]
+    # return sep.join(self.gen(...)) / x = sorted(gen(...)) ...: the generator helper's values are collected first
+    #   __glN = list(gen(...)); return sep.join(__glN)
+    # (the consumer drains the generator completely before it does anything else, and its other operands are plain names)
+    if isinstance(s, (ast.Return, ast.Assign, ast.Expr)) and isinstance(getattr(s, 'value', None), ast.Call) and depth < self.max_depth:
+      top = s.value
+      f_ = top.func
+      consumer = (isinstance(f_, ast.Name) and f_.id in ('list', 'tuple', 'sorted', 'set', 'frozenset', 'sum', 'max', 'min', 'dict')) or \
+                 (isinstance(f_, ast.Attribute) and f_.attr in ('join', 'extend', 'update') and isinstance(f_.value, (ast.Name, ast.Constant)))
+      is_plain_list = isinstance(s, ast.Assign) and isinstance(f_, ast.Name) and f_.id == 'list' and len(s.targets) == 1 and \
+        isinstance(s.targets[0], ast.Name)
+      if consumer and not is_plain_list and top.args and isinstance(top.args[0], ast.Call) and \
+         all(isinstance(a, (ast.Name, ast.Constant)) for a in top.args[1:]) and \
+         all(isinstance(kw.value, (ast.Name, ast.Constant, ast.Attribute, ast.Lambda)) for kw in top.keywords):
+        gcall = top.args[0]
+        callee = self._callee(gcall, fn)
+        if callee is not None and callee.key not in stack and self._simple(callee, gcall, generator=True) and \
+           not any(isinstance(x, ast.Return) for x in walk_no_nested(callee.node, include_self=False)):
+          self._k += 1
+          tmp = '__gl%d' % self._k
+          pre = ast.Assign(targets=[ast.Name(id=tmp, ctx=ast.Store())],
+                           value=ast.Call(func=ast.Name(id='list', ctx=ast.Load()), args=[gcall], keywords=[]))
+          top.args[0] = ast.Name(id=tmp, ctx=ast.Load())
+          for st_ in (pre,):
+            ast.copy_location(st_, s)
+            for x in ast.walk(st_):
+              if not hasattr(x, 'lineno') and isinstance(x, (ast.expr, ast.stmt)):
+                ast.copy_location(x, s)
+          ast.copy_location(top.args[0], gcall)
+          inlined.append('<flag>')
+          return self._stmt(pre, fn, stack, inlined, depth) + [s]
     # L = list(self.gen(...))  with a generator helper that never returns early  ->  L = []; <helper body, yield v -> L.append(v)>
     if isinstance(s, ast.Assign) and len(s.targets) == 1 and isinstance(s.targets[0], ast.Name) and isinstance(s.value, ast.Call) and \
        isinstance(s.value.func, ast.Name) and s.value.func.id == 'list' and len(s.value.args) == 1 and not s.value.keywords and \
@@ -861,11 +891,32 @@ def _coalesce_copies(defnode):
                any(y is dnode for y in ast.walk(blk_owner.target)):
               di = -1        # the synthetic name is the loop variable of the loop whose body the copy sits in
             if di is None:
-              continue
-            if any(isinstance(y, (ast.Continue, ast.Break)) for st in blk[di + 1:si] for y in ast.walk(st)):
-              continue
-            if any(pos[id(l)] < pos[id(S)] for l in loads.get(u, [])):
-              continue
+              # D in an enclosing statement list, before the statement that contains the copy (D dominates the copy):
+              # sound when every read of the caller's name sits after the copy in the copy's own statement list
+              after_ids = {id(y) for st in blk[si + 1:] for y in ast.walk(st)}
+              if not all(id(l) in after_ids for l in loads.get(u, [])):
+                continue
+              dominated = False
+              for ob in ast.walk(defnode):
+                for f2 in ('body', 'orelse', 'finalbody'):
+                  b2 = getattr(ob, f2, None)
+                  if not isinstance(b2, list) or b2 is blk:
+                    continue
+                  holder = [k for k, st in enumerate(b2) if any(y is S for y in ast.walk(st))]
+                  if not holder:
+                    continue
+                  for j in range(holder[0]):
+                    if isinstance(b2[j], ast.Assign) and any(y is dnode for tt in b2[j].targets for y in ast.walk(tt)):
+                      dominated = True
+                  if f2 == 'body' and isinstance(ob, ast.For) and not ob.orelse and any(y is dnode for y in ast.walk(ob.target)):
+                    dominated = True
+              if not dominated:
+                continue
+            else:
+              if any(isinstance(y, (ast.Continue, ast.Break)) for st in blk[di + 1:si] for y in ast.walk(st)):
+                continue
+              if any(pos[id(l)] < pos[id(S)] for l in loads.get(u, [])):
+                continue
             for l in loads.get(syn, []) + stores[syn]:
               l.id = u
             done = True
